@@ -84,7 +84,7 @@ func c09TranslateCond(s *source, x ast.Expr, params []c09Param) (string, error) 
 					return "", err
 				}
 				return "(" + a + " " + x.Op.String() + " " + b + ")", nil
-			case token.EQL, token.NEQ, token.GTR:
+			case token.EQL, token.NEQ, token.GTR, token.LSS:
 				neg := func(t string) string {
 					if x.Op == token.NEQ {
 						return "(!" + t + ")"
@@ -92,7 +92,7 @@ func c09TranslateCond(s *source, x ast.Expr, params []c09Param) (string, error) 
 					return t
 				}
 				// E == nil / E != nil
-				if id, ok := x.Y.(*ast.Ident); ok && id.Name == "nil" && x.Op != token.GTR {
+				if id, ok := x.Y.(*ast.Ident); ok && id.Name == "nil" && x.Op != token.GTR && x.Op != token.LSS {
 					if p := find(x.X); p != nil && p.kind == "flag" {
 						if x.Op == token.EQL {
 							return "(!" + p.name + ")", nil
@@ -111,11 +111,14 @@ func c09TranslateCond(s *source, x ast.Expr, params []c09Param) (string, error) 
 							if x.Op == token.GTR {
 								return "decide (" + n + " > " + k.Value + ")", nil
 							}
+							if x.Op == token.LSS {
+								return "decide (" + n + " < " + k.Value + ")", nil
+							}
 							return neg("(" + n + " == " + k.Value + ")"), nil
 						}
 					}
 				}
-				if x.Op != token.GTR {
+				if x.Op != token.GTR && x.Op != token.LSS {
 					// E[0] op C   (first byte of a string against a byte constant)
 					if ix, ok := x.X.(*ast.IndexExpr); ok {
 						if k, ok := ix.Index.(*ast.BasicLit); ok && k.Value == "0" {
@@ -345,6 +348,152 @@ func c09Methods(s *source, fd *ast.FuncDecl) []string {
 	return out
 }
 
+// ---- round 5: whole if-return bodies as decision functions, forwarded argument lists ----
+
+func c09Results(s *source, r *ast.ReturnStmt) string {
+	var out []string
+	for _, x := range r.Results {
+		out = append(out, s.src(x))
+	}
+	return strings.Join(out, ", ")
+}
+
+// c09Body translates a function body of the form
+//
+//	[assignments / declarations]  { if COND { return E } }  ( return E | anything else )
+//
+// into `def <leanName> (params…) : Nat` = the INDEX of the return statement that is taken (the conditions are
+// translated with c09TranslateCond), and `<leanName>Returns : List String` = the returned expressions in that order
+// ("<continues>" when the function goes on with something that is not a return).  This pins, for all arguments,
+// which exit a call takes AND what each exit returns.
+func (e *emitter) c09Body(s *source, rel, goName, leanName string, params []c09Param) {
+	sig := ""
+	for _, p := range params {
+		t := map[string]string{"str": "String", "chr": "Char", "flag": "Bool", "nat": "Nat"}[p.kind]
+		sig += fmt.Sprintf(" (%s : %s)", p.name, t)
+	}
+	fail := func(msg string) {
+		e.errors = append(e.errors, msg)
+		e.printf("/-- MISSING: %s -/\ndef %s%s : Nat := 0\n\n", msg, leanName, sig)
+		e.stringList(leanName+"Returns", "MISSING", []string{"MISSING"})
+	}
+	fd := s.findFunc(rel, goName)
+	if fd == nil {
+		fail("function " + goName + " not found in " + rel)
+		return
+	}
+	var conds, rets []string
+	done := false
+	for _, st := range fd.Body.List {
+		if done {
+			break
+		}
+		switch x := st.(type) {
+		case *ast.IfStmt:
+			var ret *ast.ReturnStmt
+			if x.Init == nil && x.Else == nil && len(x.Body.List) == 1 {
+				ret, _ = x.Body.List[0].(*ast.ReturnStmt)
+			}
+			if ret == nil {
+				rets = append(rets, "<continues>")
+				done = true
+				break
+			}
+			c, err := c09TranslateCond(s, x.Cond, params)
+			if err != nil {
+				fail(leanName + ": " + err.Error())
+				return
+			}
+			conds = append(conds, c)
+			rets = append(rets, c09Results(s, ret))
+		case *ast.ReturnStmt:
+			rets = append(rets, c09Results(s, x))
+			done = true
+		case *ast.AssignStmt, *ast.DeclStmt:
+			if len(conds) > 0 {
+				rets = append(rets, "<continues>")
+				done = true
+			}
+		default:
+			rets = append(rets, "<continues>")
+			done = true
+		}
+	}
+	if !done {
+		rets = append(rets, "<falls off>")
+	}
+	body := ""
+	for i, c := range conds {
+		body += fmt.Sprintf("if %s then %d else ", c, i)
+	}
+	body += fmt.Sprint(len(conds))
+	e.printf("/-- which exit `%s` (%s) takes: index into `%sReturns` -/\ndef %s%s : Nat := %s\n\n", goName, rel, leanName, leanName, sig, body)
+	e.stringList(leanName+"Returns", "what the exits of `"+goName+"` return, in source order", rets)
+}
+
+// c09Calls emits every call of a function in source order (outer call before the calls in its arguments) as
+// (callee, [argument expressions]); an argument passed with `...` keeps the dots.  Function literals are entered.
+func (e *emitter) c09Calls(s *source, rel, goName, leanName string) {
+	fd := s.findFunc(rel, goName)
+	if fd == nil {
+		e.errors = append(e.errors, "function "+goName+" not found in "+rel)
+		e.printf("/-- MISSING -/\ndef %s : List (String × List String) := []\n\n", leanName)
+		return
+	}
+	var items []string
+	ast.Inspect(fd.Body, func(n ast.Node) bool {
+		c, ok := n.(*ast.CallExpr)
+		if !ok {
+			return true
+		}
+		var args []string
+		for i, a := range c.Args {
+			t := s.src(a)
+			if fl, ok := a.(*ast.FuncLit); ok {
+				t = "func" + s.src(fl.Type)[4:] + "{...}"
+			}
+			if i == len(c.Args)-1 && c.Ellipsis.IsValid() {
+				t += "..."
+			}
+			args = append(args, leanString(t))
+		}
+		items = append(items, fmt.Sprintf("(%s, [%s])", leanString(s.src(c.Fun)), strings.Join(args, ", ")))
+		return true
+	})
+	e.printf("/-- calls of `%s` in %s with their argument lists, in source order -/\ndef %s : List (String × List String) :=\n  [%s]\n\n",
+		goName, rel, leanName, strings.Join(items, ",\n   "))
+}
+
+// c09Fields emits the key/value pairs of the first composite literal of type `typ` in a function as a typed list
+// (field, value expression): which field of the constructed value is fed from what.
+func (e *emitter) c09Fields(s *source, rel, goName, typ, leanName string) {
+	fd := s.findFunc(rel, goName)
+	var lit *ast.CompositeLit
+	if fd != nil {
+		ast.Inspect(fd.Body, func(n ast.Node) bool {
+			if cl, ok := n.(*ast.CompositeLit); ok && lit == nil && cl.Type != nil && s.src(cl.Type) == typ {
+				lit = cl
+			}
+			return lit == nil
+		})
+	}
+	if lit == nil {
+		e.errors = append(e.errors, "composite literal "+typ+" not found in "+goName+" ("+rel+")")
+		e.printf("/-- MISSING -/\ndef %s : List (String × String) := []\n\n", leanName)
+		return
+	}
+	var items []string
+	for _, el := range lit.Elts {
+		if kv, ok := el.(*ast.KeyValueExpr); ok {
+			items = append(items, fmt.Sprintf("(%s, %s)", leanString(s.src(kv.Key)), leanString(s.src(kv.Value))))
+		} else {
+			items = append(items, fmt.Sprintf("(\"\", %s)", leanString(s.src(el))))
+		}
+	}
+	e.printf("/-- fields of the `%s` literal built in `%s` (%s) -/\ndef %s : List (String × String) :=\n  [%s]\n\n",
+		typ, goName, rel, leanName, strings.Join(items, ", "))
+}
+
 func init() {
 	register("C09", func(s *source, e *emitter) {
 		const tree = "core/search/tree.go"
@@ -431,6 +580,68 @@ func init() {
 		e.c09Cond(s, pat, "patRouter.methodsAllowed", "condAllowedAny", c09If(2), []c09Param{{"allows", "nAllows", "nat"}})
 		e.c09Cond(s, pat, "validMethod", "condValidMethod", c09RetField(0, ""), []c09Param{str("method")})
 		e.c09Cond(s, eng, "engine.notFoundHandler", "condEngineNFCustom", c09If(1), []c09Param{{"next", "next", "flag"}})
+		// round 5: the remaining entry points (statement lists)
+		e.c09DetailDef(s, srv, "MustNewServer", "mustNewServerStmts")
+		e.c09DetailDef(s, srv, "Server.Start", "serverStartStmts")
+		e.c09DetailDef(s, srv, "Server.StartWithOpts", "serverStartWithOptsStmts")
+		e.c09DetailDef(s, srv, "Server.Use", "serverUseStmts")
+		e.c09DetailDef(s, srv, "WithRouter", "withRouterStmts")
+		e.c09DetailDef(s, srv, "handleError", "handleErrorStmts")
+		e.c09DetailDef(s, eng, "engine.use", "engineUseStmts")
+		e.c09DetailDef(s, eng, "engine.start", "engineStartStmts")
+		// round 5: whole if-return bodies as decision functions
+		e.c09Body(s, tree, "Tree.Add", "treeAddBody", []c09Param{str("route"), {"item", "item", "flag"}})
+		e.c09Body(s, tree, "Tree.Search", "treeSearchBody", []c09Param{str("route")})
+		e.c09Body(s, tree, "node.getChildren", "getChildrenBody", []c09Param{str("route")})
+		e.c09Body(s, tree, "match", "matchBody", []c09Param{str("pat")})
+		e.c09Body(s, pat, "patRouter.Handle", "handleBody", []c09Param{{"validMethod(method)", "valid", "flag"}, str("reqPath")})
+		e.c09Body(s, pv, "Vars", "pathvarVarsBody", []c09Param{{"ok", "ok", "flag"}})
+		e.c09Body(s, srv, "handleError", "handleErrorBody", []c09Param{{"err", "err", "flag"},
+			{"errors.Is(err, http.ErrServerClosed)", "closed", "flag"}})
+		e.c09Calls(s, eng, "engine.start", "engineStartCalls")
+		// round 5: the decisions of engine.bindRoute / appendAuthHandler (model `bindChain`, `tokenOk`)
+		e.c09Cond(s, eng, "engine.bindRoute", "condBindRouteNative", c09If(0), []c09Param{{"chn", "chn", "flag"}})
+		e.c09Cond(s, eng, "engine.appendAuthHandler", "condAuthEnabled", c09If(0), []c09Param{{"fr.jwt.enabled", "enabled", "flag"}})
+		e.c09Cond(s, eng, "engine.appendAuthHandler", "condAuthNoPrev", c09If(1), []c09Param{{"fr.jwt.prevSecret", "prev", "str"}})
+		// round 5: validateSecret (WithJwt / WithJwtTransition panic on a short secret: nothing is registered)
+		e.c09Cond(s, srv, "validateSecret", "condSecretTooShort", c09If(0), []c09Param{{"secret", "secretLen", "nat"}})
+		e.c09DetailDef(s, srv, "validateSecret", "validateSecretStmts")
+		e.c09Calls(s, srv, "WithJwt", "withJwtCalls")
+		e.c09Calls(s, srv, "WithJwtTransition", "withJwtTransitionCalls")
+		// round 5: WithCors (as implemented: the CORS middleware in front of the patRouter answers every OPTIONS request)
+		const corsf = "rest/internal/cors/handlers.go"
+		e.c09DetailDef(s, srv, "WithCors", "withCorsStmts")
+		e.c09DetailDef(s, srv, "newCorsRouter", "newCorsRouterStmts")
+		e.c09DetailDef(s, srv, "corsRouter.ServeHTTP", "corsRouterServeStmts")
+		e.c09Cond(s, corsf, "Middleware", "condCorsPreflight", c09If(1), []c09Param{{"r.Method", "method", "str"}})
+		e.c09Cond(s, corsf, "NotAllowedHandler", "condCorsNAOptions", c09If(1), []c09Param{{"r.Method", "method", "str"}})
+		// round 5: what the constructed values are fed from
+		e.c09Fields(s, srv, "WithPrefix", "Route", "withPrefixRouteFields")
+		e.c09Calls(s, srv, "WithPrefix", "withPrefixCalls")
+		e.c09Fields(s, srv, "Server.AddRoutes", "featuredRoutes", "addRoutesFeaturedFields")
+		e.c09Calls(s, srv, "Server.AddRoutes", "serverAddRoutesCalls")
+		e.c09Fields(s, srv, "NewServer", "Server", "newServerFields")
+		e.c09Fields(s, pat, "NewRouter", "patRouter", "newRouterFields")
+		e.c09Fields(s, tree, "NewTree", "Tree", "newTreeFields")
+		e.c09Fields(s, tree, "newNode", "node", "newNodeFields")
+		// round 5: forwarded argument lists of the delegating entry points
+		e.c09Calls(s, srv, "Server.AddRoute", "serverAddRouteCalls")
+		e.c09Calls(s, srv, "MustNewServer", "mustNewServerCalls")
+		e.c09Calls(s, srv, "Server.Start", "serverStartCalls")
+		e.c09Calls(s, srv, "Server.StartWithOpts", "serverStartWithOptsCalls")
+		e.c09Calls(s, srv, "Server.Use", "serverUseCalls")
+		e.c09Calls(s, eng, "engine.use", "engineUseCalls")
+		e.c09Calls(s, eng, "engine.bindRoutes", "engineBindRoutesCalls")
+		e.c09Calls(s, eng, "engine.bindFeaturedRoutes", "engineBindFeaturedCalls")
+		e.c09Calls(s, eng, "engine.bindRoute", "engineBindRouteCalls")
+		e.c09Calls(s, eng, "engine.appendAuthHandler", "engineAppendAuthCalls")
+		e.c09Calls(s, tree, "Tree.Add", "treeAddCalls")
+		e.c09Calls(s, tree, "Tree.Search", "treeSearchCalls")
+		e.c09Calls(s, pat, "patRouter.Handle", "handleCalls")
+		e.c09Calls(s, pat, "patRouter.ServeHTTP", "serveCalls")
+		e.c09Calls(s, pat, "patRouter.methodsAllowed", "methodsAllowedCalls")
+		e.c09Calls(s, pv, "Vars", "pathvarVarsCalls")
+		e.c09Calls(s, pv, "WithVars", "pathvarWithVarsCalls")
 		if fd := s.findFunc(pat, "validMethod"); fd != nil {
 			e.stringList("validMethodTests", "comparisons of `validMethod` in "+pat, c09Methods(s, fd))
 			e.c09DetailDef(s, pat, "validMethod", "validMethodStmts")
